@@ -117,7 +117,10 @@ class Function(Subroutine):
             arg_doc, doc_str = self.result_obj.get_hover()
             if doc_str is not None:
                 docs.append(f"\n**Return:**  \n`{self.result_obj.name}`{doc_str}")
-            hover_array.append(arg_doc)
+            # The result name can resolve to something that is not a variable
+            # (half-typed code): nothing to show then
+            if arg_doc is not None:
+                hover_array.append(arg_doc)
         # intrinsic functions, where the return type is missing but can be inferred
         elif self.result_type and long:
             # prepend type to function signature
